@@ -1,4 +1,4 @@
-From V Require Import Common.Base C07.Vlq C07.SpecMap C07.Mappings C07.MappingsProofs.
+From V Require Import Common.Base C07.Vlq C07.SpecMap C07.Mappings C07.MappingsProofs C07.FindProofs C07.JoinProofs.
 (* non-vacuity / sanity: concrete values *)
 Example enc_ex : map encodeVLQ [0; 1; -1; 15; 16; -16; 123456] =
   [[65]; [67]; [68]; [101]; [103; 66]; [104; 66]; [103; 107; 120; 72]].
@@ -7,3 +7,16 @@ Example emit_ex :
   emit_bytes [OMap 0 0 0 0 None; OMap 4 0 0 4 (Some 0); ONewline; OMap 2 1 3 0 None]
   = [65;65;65;65; 44; 73;65;65;73;65; 59; 69;67;71;74].
 Proof. vm_compute. reflexivity. Qed.
+Example find_ex :
+  let ms := [mkMapping 0 0 0 0 0 None; mkMapping 0 5 0 1 2 (Some 1); mkMapping 2 3 1 0 0 None] in
+  sorted_maps ms /\ Find ms 0 7 = Some (mkMapping 0 5 0 1 2 (Some 1)) /\ Find ms 1 0 = None.
+Proof. cbn. unfold pos_le. cbn. repeat split; lia. Qed.
+(* join: hypotheses satisfiable and the statement computes on a concrete chunk *)
+Example join_ex :
+  let ops := [ONewline; OMap 2 0 1 3 None; OMap 7 0 1 9 (Some 0); ONewline; OMap 0 0 2 0 (Some 1)] in
+  let start := mkState 2 5 3 0 0 4 false in
+  let prevEnd := mkState 0 11 2 8 1 3 true in
+  AppendSourceMapChunk 65 prevEnd start (mkChunk (emit_bytes ops) (option_map Z.of_nat (first_name_off ops 0 state0 0)))
+  = Some (ebytes (repeat ONewline 2 ++ rebase 5 3 4 true ops) 65 prevEnd)
+  /\ first_name_off ops 0 state0 0 = Some 10%nat.
+Proof. vm_compute. split; reflexivity. Qed.
